@@ -123,7 +123,7 @@ def decide(spec, tier, seed):
                 m = re.match(r"Starcal/SrcTie/(\w+)\.lean$", f)
                 if m and m.group(1) in which:
                     cfgs.update(which[m.group(1)])
-                elif m and m.group(1) in ("Cal", "All"):
+                elif m and m.group(1) in ("Cal", "Cal2", "All"):
                     pass    # they only collect the per-package theorems
                 else:
                     unknown = True
